@@ -478,3 +478,20 @@ Qed.
 
 Lemma rank_total m k : In k (map a_key (m_atoms m)) -> exists r, rank m k = Some r.
 Proof. intros H. unfold rank. apply rank_from_some. apply sorted_nodes_keys. exact H. Qed.
+
+(* with distinct node keys the table is the position in atom-id order: the j-th written atom (from 0) has index j + 1,
+   so the indices used are exactly 1..N, each by one atom *)
+Lemma rank_from_position l : NoDup (map a_key l) ->
+  forall j a i, nth_error l j = Some a -> rank_from (a_key a) l i = Some (i + Z.of_nat j).
+Proof.
+  induction l as [|b l IH]; intros Hnd j a i Hn; [destruct j; discriminate|].
+  inversion Hnd as [|? ? Hnotin Hnd']; subst. destruct j as [|j]; cbn in Hn.
+  - injection Hn as ->. cbn [rank_from]. rewrite Z.eqb_refl. f_equal. lia.
+  - cbn [rank_from]. destruct (Z.eqb_spec (a_key b) (a_key a)) as [E|_].
+    + exfalso. apply Hnotin. rewrite E. apply in_map. eapply nth_error_In; eassumption.
+    + rewrite (IH Hnd' j a (i + 1) Hn). f_equal. lia.
+Qed.
+
+Lemma rank_position m : NoDup (map a_key (sorted_nodes m)) ->
+  forall j a, nth_error (sorted_nodes m) j = Some a -> rank m (a_key a) = Some (Z.of_nat j + 1).
+Proof. intros H j a Hn. unfold rank. rewrite (rank_from_position _ H j a 1 Hn). f_equal. lia. Qed.
